@@ -226,7 +226,7 @@ func genC05(t *rapid.T) C05Case {
 		c.Accept = append(c.Accept, r)
 	}
 	if rapid.IntRange(0, 3).Draw(t, "badq") == 0 {
-		c.BadQ = rapid.SampledFrom(c.Produces).Draw(t, "badqmedia") + ";q=" + rapid.SampledFrom([]string{"1e999", "abc", "-1e999", "0x1p-2", "", "1.0.0", "NaN", "Inf"}).Draw(t, "badqval")
+		c.BadQ = rapid.SampledFrom(c.Produces).Draw(t, "badqmedia") + rapid.SampledFrom([]string{";q=1e999", ";q=abc", ";q=-1e999", ";q=0x1p-2", ";q=", ";q=1.0.0", ";q=NaN", ";q=Inf", ";q", "; q", ";q;v=1", ";q=1=2"}).Draw(t, "badqval")
 		c.BadQPos = rapid.IntRange(0, len(c.Accept)).Draw(t, "badqpos")
 		c.TraceOffNil = rapid.Bool().Draw(t, "traceoffnil")
 	}
